@@ -367,8 +367,8 @@ def exact_value_loader(repo: Repo, m: ModuleInfo, res: CheckResult) -> None:
     res.evaluated("enum-exact:tables", True)
     if gv is None or md is None:
         raise AnalysisError("anchor vanished: EnumExactValueProvider tables")
-    t1 = [comp_table(n) for n in ast.walk(gv) if isinstance(n, ast.DictComp)]
-    t2 = [comp_table(n) for n in ast.walk(md) if isinstance(n, ast.DictComp)]
+    tb1, tb2 = dict_tables(gv), dict_tables(md)
+    t1, t2 = [t for t, _n, _b in tb1], [t for t, _n, _b in tb2]
     enum_l, enum_d = _enum_param(gv), _enum_param(md)
     ok = len(t1) == 1 and len(t2) == 1 and t1[0] is not None and t2[0] is not None
     if ok:
@@ -378,6 +378,7 @@ def exact_value_loader(repo: Repo, m: ModuleInfo, res: CheckResult) -> None:
         # the loader must return this very table
         rets = [r for r in walk_no_nested(gv) if isinstance(r, ast.Return) and r.value is not None and norm(r.value) != "None"]
         tbl_names = {norm(a.targets[0]) for a in ast.walk(gv) if isinstance(a, ast.Assign) and isinstance(a.value, ast.DictComp)}
+        tbl_names |= {b for _t, _n, b in tb1 if b}
         if not rets or any(norm(r.value) not in tbl_names for r in rets):
             ok = False
     if not ok:
@@ -388,7 +389,8 @@ def exact_value_loader(repo: Repo, m: ModuleInfo, res: CheckResult) -> None:
     # the dict-based loader is only correct when every value is hashable: building the table must be allowed to fail
     # (TypeError -> None -> enum(data) fallback)
     res.evaluated("enum-exact:unhashable-fallback", True)
-    tr = [t for t in ast.walk(gv) if isinstance(t, ast.Try) and any(isinstance(x, ast.DictComp) for b in t.body for x in ast.walk(b))]
+    builders = {id(n_) for _t, n_, _b in tb1}
+    tr = [t for t in ast.walk(gv) if isinstance(t, ast.Try) and any(id(x) in builders for b in t.body for x in ast.walk(b))]
     fallback = any(h.type is not None and "TypeError" in norm(h.type) and any(isinstance(x, ast.Return) and (x.value is None or norm(x.value) == "None")
                                                                           for x in h.body) for t in tr for h in t.handlers)
     if not fallback:
@@ -422,6 +424,33 @@ def comp_table(dc: ast.DictComp) -> Optional[Tuple[str, str, str]]:
     else:
         return None
     return alpha(dc.key, mp), alpha(dc.value, mp), norm(g.iter)
+
+
+def dict_tables(fn: ast.AST) -> List[Tuple[Optional[Tuple[str, str, str]], ast.AST, str]]:
+    """every dict built element-wise from one iteration inside fn, in either idiom: a one-generator dict comprehension, or
+    `name = {}` followed by `for <target> in <source>: name[<key>] = <value>`. Returns (comp_table-style triple or None when the
+    shape is not a plain table, the node that performs the build, the name it is bound to or '')."""
+    out: List[Tuple[Optional[Tuple[str, str, str]], ast.AST, str]] = []
+    for n in ast.walk(fn):
+        if isinstance(n, ast.DictComp):
+            out.append((comp_table(n), n, ""))
+    for n in ast.walk(fn):
+        for field in ("body", "orelse", "finalbody"):
+            stmts = getattr(n, field, None)
+            if not (isinstance(stmts, list) and stmts and isinstance(stmts[0], ast.stmt)):
+                continue
+            for a, b in zip(stmts, stmts[1:]):
+                if not (isinstance(a, ast.Assign) and len(a.targets) == 1 and isinstance(a.targets[0], ast.Name)
+                        and ((isinstance(a.value, ast.Dict) and not a.value.keys) or norm(a.value) == "dict()")):
+                    continue
+                if not (isinstance(b, ast.For) and len(b.body) == 1 and not b.orelse and isinstance(b.body[0], ast.Assign)
+                        and len(b.body[0].targets) == 1 and isinstance(b.body[0].targets[0], ast.Subscript)
+                        and norm(b.body[0].targets[0].value) == a.targets[0].id):
+                    continue
+                fake = ast.DictComp(key=b.body[0].targets[0].slice, value=b.body[0].value,
+                                    generators=[ast.comprehension(target=b.target, iter=b.iter, ifs=[], is_async=0)])
+                out.append((comp_table(fake), b, a.targets[0].id))
+    return out
 
 
 def _enum_param(fn: ast.FunctionDef) -> str:
